@@ -3,7 +3,7 @@ import json
 import os
 
 from lib import common as C
-from checks import hsim, sync_gen, sync_eval
+from checks import hsim, sync_gen, sync_eval, mv_sync
 
 LEVEL = "proof"
 
@@ -64,6 +64,9 @@ def run(rep, tier, seed, replay=None):
         rep.cov["leanchecker"] = "ok" if okc else out
         if not okc:
             rep.violation("unverified", dict(broken="leanchecker Photon.Properties.C06", log=out), no_input=True)
+    if replay and json.load(open(replay)).get("harness") == "mv_sync":
+        mv_sync.run(rep, "C06", ['rw', 'qrw'], tier, seed, json.load(open(replay))["program"])
+        return
     if replay and json.load(open(replay)).get("harness") == "hsim_rw":
         run_api(rep, tier, seed, [json.load(open(replay))["program"]])
         return
@@ -102,6 +105,7 @@ def run(rep, tier, seed, replay=None):
     sync_eval.evaluate(rep, "C06", progs, results, oracle, C.known_findings("C06"), stuck_is_violation=False)
     if not replay:
         run_api(rep, tier, seed, None)
+        mv_sync.run(rep, "C06", ["rw", "qrw"], tier, seed)
 
 
 def gen_api(r, big):
